@@ -76,11 +76,6 @@ impl<'a> Ev<'a> {
                     if self.silent == 0 {
                         self.lets.push(json!({"names":names,"line":line_of(l),"pat":tok(&l.pat),"guard":self.guard_json(),"v": if size(&v) > 800 { json!({"k":"big"}) } else { v.clone() }}));
                     }
-                    let v = if names.len() == 1 && !matches!(v.get("k").and_then(|k| k.as_str()), Some("atom") | Some("closure_ref")) {
-                        json!({"k":"var","name":names[0],"v":v,"ty":ty_of(&v)})
-                    } else {
-                        v
-                    };
                     self.bind_pat(&l.pat, &v);
                 }
                 Stmt::Item(it) => {
@@ -398,14 +393,16 @@ impl<'a> Ev<'a> {
                 json!({"k":"unit"})
             }
             Expr::While(w) => {
-                let c = self.cond_of(&w.cond, false);
                 let before = self.env.clone();
+                self.env.push(HashMap::new());
+                let c = self.cond_of(&w.cond, true);
                 self.guards.push(json!({"k":"while","c":c,"line":line_of(w)}));
                 if self.silent == 0 {
                     self.loops.push(json!({"kind":"while","c":c,"line":line_of(w),"guard":self.guard_json()}));
                 }
                 let _ = self.block(&w.body, "loop_body");
                 self.guards.pop();
+                self.env.pop();
                 let after = self.env.clone();
                 self.merge_env(&json!({"k":"loop_ran"}), &before, after, before.clone());
                 json!({"k":"unit"})
